@@ -155,6 +155,14 @@ func sanitizationContextForAttrVal(element, attr, linkRel string) (sanitizationC
 		// rel attribute possesses certain values.
 		relVals := strings.Fields(linkRel)
 		for _, val := range relVals {
+			if !urlLinkRelVals[val] {
+				// All values must be URL-compatible: in rel="alternate stylesheet" the
+				// link is still a style sheet.
+				relVals = nil
+				break
+			}
+		}
+		for _, val := range relVals {
 			if urlLinkRelVals[val] {
 				return sanitizationContextTrustedResourceURLOrURL, nil
 			}
